@@ -611,6 +611,13 @@ where
                 Some(l) => Obs::Num(f.forpush.call(l, *n)),
                 None => Obs::Skipped,
             },
+            Op::InnerPush { inner, v } => match self.inner.lists.iter().find(|(i, _)| i == inner) {
+                Some((_, l)) => {
+                    l.push(*v);
+                    Obs::Unit
+                }
+                None => Obs::Skipped,
+            },
         }
     }
 }
